@@ -39,13 +39,24 @@ Definition req (U : list request) (j : nat) : request := nth j U dummy_req.
 
 (* an operation as sent by the harness: (request index, outcome, clean-up mode, additional files,
    the name a re-used Calculation object already carried) *)
-Definition hop := (nat * outcome * cmode * list str * option str)%type.
+Definition hop := (nat * outcome * cmode * list str * option str * list str)%type.
 Definition to_op (U : list request) (h : hop) : op :=
-  let '(j, oc, cm, aux, start) := h in mkOp (req U j) oc cm aux start.
+  let '(j, oc, cm, aux, start, stale) := h in mkOp (req U j) oc cm aux start stale.
 (* either kind of calculation: external program, or optimisation by autodE's own optimiser *)
-Inductive hgop := HExt (h : hop) | HOpt (j : nat).
-Definition to_gop (U : list request) (h : hgop) : gop :=
-  match h with HExt h => GExt (to_op U h) | HOpt j => GOpt (req U j) end.
+(* HOptLate j0 j: an optimisation object built with the fields of request j0 and changed to
+   request j before run() *)
+Inductive hgop := HExt (h : hop) | HOpt (j : nat) | HOptLate (j0 j : nat).
+Definition exec_hgop (U : list request) (st : state) (h : hgop) : state * obs :=
+  match h with
+  | HExt h => exec_op st (to_op U h)
+  | HOpt j => exec_opt st (req U j)
+  | HOptLate j0 j => exec_opt_late st (req U j0) (req U j)
+  end.
+Fixpoint run_hgops (U : list request) (st : state) (hs : list hgop) : state * list obs :=
+  match hs with
+  | [] => (st, [])
+  | h :: t => let '(st1, ob) := exec_hgop U st h in let '(st2, obs) := run_hgops U st1 t in (st2, ob :: obs)
+  end.
 (* an observation as sent by the harness: (final name, invoked?, index of the request whose output
    the energy was parsed from, raised?) *)
 Definition hobs := (str * bool * option nat * bool)%type.
@@ -62,24 +73,29 @@ Definition obs_eqb (U : list request) (m : obs) (h : hobs) : bool :=
 Definition canon_line (U : list request) (js : list nat) (l : record) : str * nat :=
   (fst l, first_idx (fun j => ident_eqb (idf (req U j) (fst l)) (snd l)) js).
 Definition line_eqb (a b : str * nat) : bool := str_eqb (fst a) (fst b) && Nat.eqb (snd a) (snd b).
-(* output file -> (file name, terminated normally?, universe index of its producer) *)
-Definition outs_of (U : list request) (js : list nat) (fs : fsys) : list (str * bool * nat) :=
+(* output / trajectory file -> (file name, terminated normally?, producer); the harness sends the
+   universe index of the producer (two universe entries may be the same model request, e.g. keyword
+   objects that print alike, so producers are compared as requests) *)
+Definition outs_of (fs : fsys) : list (str * bool * request) :=
   flat_map (fun f => match f_kind f with
-                     | KOutput c | KTraj c => [(f_name f, c_normal c, first_idx (fun j => request_eqb (c_producer c) (req U j)) js)]
+                     | KOutput c | KTraj c => [(f_name f, c_normal c, c_producer c)]
                      | _ => [] end) fs.
-Definition out_eqb (a b : str * bool * nat) : bool :=
-  str_eqb (fst (fst a)) (fst (fst b)) && Bool.eqb (snd (fst a)) (snd (fst b)) && Nat.eqb (snd a) (snd b).
+Definition out_match (U : list request) (m : str * bool * request) (h : str * bool * nat) : bool :=
+  str_eqb (fst (fst m)) (fst (fst h)) && Bool.eqb (snd (fst m)) (snd (fst h)) && request_eqb (snd m) (req U (snd h)).
+Definition outs_eqb (U : list request) (ms : list (str * bool * request)) (hs : list (str * bool * nat)) : bool :=
+  Nat.eqb (List.length ms) (List.length hs) &&
+  forallb (fun m => existsb (out_match U m) hs) ms && forallb (fun h => existsb (fun m => out_match U m h) ms) hs.
 
 (* one executed sequence: per-operation observations, final registry (in file order), final
    directory listing and the content of every output file in it *)
 Definition chk_seq (U : list request) (js : list nat) (hops : list hgop) (eobs : list hobs)
            (ereg : list (str * nat)) (efiles : list str) (eouts : list (str * bool * nat)) : bool :=
-  let '(st, obs) := run_gops init_state (map (to_gop U) hops) in
+  let '(st, obs) := run_hgops U init_state hops in
   Nat.eqb (List.length obs) (List.length eobs) &&
   forallb (fun p => obs_eqb U (fst p) (snd p)) (combine obs eobs) &&
   list_eqb line_eqb (map (canon_line U js) (st_reg st)) ereg &&
   set_eqb str_eqb (map f_name (st_fs st)) efiles &&
-  set_eqb out_eqb (outs_of U js (st_fs st)) eouts.
+  outs_eqb U (outs_of (st_fs st)) eouts.
 
 (* the same sequence executed in two processes: the second starts from what the first left on disk *)
 Definition chk_seq_restart (U : list request) (js : list nat) (h1 h2 : list hgop) (eobs : list hobs)
